@@ -383,7 +383,7 @@ pub fn strategy() -> BoxedStrategy<Case> {
             // (large limits: a miter within 1 degree of a reversal is hundreds of half-widths long and still required)
             let miter = prop_oneof![4 => Just(10.0f32), 2 => Just(4.0f32), 4 => 0.0f32..12.0, 2 => Just(1.4142135f32), 2 => Just(2.0f32), 1 => prop::sample::select(vec![200.0f32, 400.0, 60.0]), 2 => prop::sample::select(vec![1.0f32, 1.1, 1.2, 1.3, 1.4, 1.42, 1.5])];
             // zoom: the same picture in user units `zoom` times smaller under a CTM `zoom` times larger
-            let zoom = prop_oneof![12 => Just(1.0f32), 1 => Just(4096.0f32), 1 => Just(65536.0f32), 1 => Just(1.0f32 / 64.0), 2 => Just(32.0f32)];
+            let zoom = prop_oneof![12 => Just(1.0f32), 1 => Just(4096.0f32), 1 => Just(65536.0f32), 1 => Just(1.0f32 / 64.0), 2 => Just(32.0f32), 1 => Just(1.0f32 / 4096.0)];
             // one transform in four also mirrors (negative determinant): the picture is flipped about the vertical
             // line through the middle of the surface
             let xf = (stroke_xf(curves), prop::bool::weighted(0.25)).prop_map(move |(x, mirror)| if mirror { [-x[0], x[1], -x[2], x[3], w as f32 - x[4], x[5]] } else { x });
